@@ -9,13 +9,13 @@ class RunClass(circworld.CircWorld):
 
 
 def gen_config(rng, tier):
-    n = rng.choice([1, 2, 2, 3, 3, 3, 4, 4, 5])
+    n = rng.choice([1, 2, 2, 3, 3, 3, 4, 4, 5] + ([6] if tier == "thorough" else []))
     ops = {"ccnew": 0.6, "take": 5.0, "roundtrip": 3.5, "freshgate": 1.0}
     for k, w in (("compose", 0.8), ("ccopy", 0.8), ("compile", 1.0), ("lcompile", 0.8), ("gcompile", 0.6)):
         if rng.random() < 0.7:
             ops[k] = w * rng.choice([0.5, 1.0, 2.0])
-    return {"n": n, "steps": rng.randrange(5, 40), "ops": ops, "faults": [], "flags": ["c10"],
-            "max_gates": rng.choice([4, 8, 12]), "backend": "torch" if rng.random() < 0.15 else "numpy"}
+    return {"n": n, "steps": rng.randrange(5, 40) if tier != "thorough" else rng.randrange(5, 90), "ops": ops, "faults": [], "flags": ["c10"],
+            "max_gates": rng.choice([4, 8, 12] if tier != "thorough" else [4, 8, 12, 24]), "backend": "torch" if rng.random() < 0.15 else "numpy"}
 
 
 # reach guard: a full-size batch in which one of these never fired means the workload or the
